@@ -122,10 +122,11 @@ EX = {(L, k): make_exhaustive(L, k) for (L, k) in [(1, 1), (1, 2), (2, 1), (2, 2
 
 def random_case(ctx, idx, rng):
     L = int(rng.choice([1, 1, 2, 3, 4, 5, 6, 7, 8, 12, 20, 30]))
-    kind = str(rng.choice(['few', 'many', 'single', 'cancelling', 'gaussian', 'charged', 'identity-heavy']))
+    kind = str(rng.choice(['few', 'many', 'single', 'cancelling', 'gaussian', 'charged', 'identity-heavy', 'near-equal']))
     nops = int(rng.integers(1, 4))
     n = {'few': int(rng.integers(1, 6)), 'many': int(rng.integers(10, 41)), 'single': 1}.get(kind, int(rng.integers(2, 12)))
-    exact = kind != 'gaussian'
+    exact = kind not in ('gaussian', 'near-equal')
+    cbase = float(rng.uniform(0.3, 2.0))
     chains = []
     pool = gen.OID_POOLS[int(rng.integers(0, len(gen.OID_POOLS)))]
     oid_id0 = 0 if pool is None else pool[0]
@@ -135,6 +136,9 @@ def random_case(ctx, idx, rng):
             c.coeff = float(rng.normal()) * float(rng.choice([1, 1e-6, 1e6, 1e-9, 1e-12, 1e-30]))
         if kind == 'single':
             c.coeff = float(rng.choice([2.5, -0.75, 1e-3, 7, 1]))
+        if kind == 'near-equal':
+            # coefficients agreeing to 6..12 digits without being equal (a tolerance-based comparison would merge them)
+            c.coeff = float(rng.choice([-1, 1])) * cbase * float(rng.choice([1, 1, 2, 0.5])) * (1 + float(rng.choice([0, 1e-12, -1e-9, 1e-7, 1e-6, -3e-6, 3e-6, 8e-6])))
         if kind == 'identity-heavy':
             c.oids = [oid_id0 if rng.random() < 0.6 else o for o in c.oids]
         chains.append(c)
